@@ -119,6 +119,12 @@ def lexPair (second : Char) (single double : SliceTok) (attr : Bool) (cs : List 
   | d :: rest => if d == second then ⟨.tok double, rest, attr⟩ else ⟨.tok single, cs, attr⟩
   | [] => ⟨.tok single, [], attr⟩
 
+/-- `comment.strip_suffix('\r').unwrap_or(comment)`: with CR LF line ends the CR belongs to the line ending, not to the comment -/
+def stripCr (cs : List Char) : List Char :=
+  match cs.getLast? with
+  | some '\r' => cs.dropLast
+  | _ => cs
+
 /-- the `'/'` arm after `//` was consumed: a third slash is consumed and makes it a doc comment, unless a fourth one
     follows (which is left to `read_line_comment`); the comment runs up to, not including, the next `'\n'` -/
 def lexLineComment (attr : Bool) (r2 : List Char) : Step :=
@@ -126,7 +132,7 @@ def lexLineComment (attr : Bool) (r2 : List Char) : Step :=
   | '/' :: r3 =>
     match r3 with
     | '/' :: _ => ⟨.skip .lineComment, r3.dropWhile (· != '\n'), attr⟩
-    | _ => ⟨.tok (.doc (r3.takeWhile (· != '\n'))), r3.dropWhile (· != '\n'), attr⟩
+    | _ => ⟨.tok (.doc (stripCr (r3.takeWhile (· != '\n')))), r3.dropWhile (· != '\n'), attr⟩
   | _ => ⟨.skip .lineComment, r2.dropWhile (· != '\n'), attr⟩
 
 /-- the `'/'` arm after the first slash was consumed -/
